@@ -159,7 +159,7 @@ class SeriesOps:
     def _isin(self, t: T.Term, values: Any) -> T.Term:
         if isinstance(values, (list, set, frozenset, PyTuple)):
             items = values.items if isinstance(values, PyTuple) else list(values)
-            if not any(isinstance(x, Each) for x in items):
+            if not any(isinstance(x, Each) or (isinstance(x, tuple) and len(x) == 2 and x[0] == "allof") for x in items):
                 return T.isin(t, [to_term(x) for x in items])
         if isinstance(values, Ser):
             vt = ("valuesof", values.term, values.ctx)
@@ -393,14 +393,18 @@ class SeriesOps:
                 self.log("set-mutation", node, what=name, args=[to_term(p) for p in pos])
                 if name == "add":
                     obj.add(I._hashable(Each(pos[0]) if I.run.loop_depth > 0 else pos[0]) if not isinstance(pos[0], (Frame,)) else to_term(pos[0]))
-                elif I.run.loop_depth == 0 and not any(isinstance(x, Each) for x in obj):
+                elif I.run.loop_depth == 0 and not any(isinstance(x, Each) for x in obj) and (name == "update" or not any(isinstance(x, tuple) and len(x) == 2 and x[0] == "allof" for x in obj)):
                     # outside symbolic loops, on known elements: the mutation itself
                     try:
                         if name in ("discard", "remove") and len(pos) == 1 and I._hashable(pos[0]) in obj:
                             obj.discard(I._hashable(pos[0]))
-                        elif name == "update" and all(I._concrete_seq(p_) is not None for p_ in pos):
+                        elif name == "update":
                             for p_ in pos:
-                                obj.update(I._hashable(x) for x in I._concrete_seq(p_))
+                                seq_ = I._concrete_seq(p_)
+                                if seq_ is not None and not any(isinstance(x, Each) for x in seq_):
+                                    obj.update(I._hashable(x) for x in seq_)
+                                else:          # a symbolic collection: the set now holds all of its elements
+                                    obj.add(("allof", ("valuesof", p_.term, p_.ctx) if isinstance(p_, Ser) else to_term(p_)))
                         elif name == "clear":
                             obj.clear()
                         elif name == "pop" and obj:
@@ -413,7 +417,7 @@ class SeriesOps:
             if name == "union" and pos and isinstance(pos[0], (set, list)):
                 return set(obj) | set(pos[0])
             # a set of known elements combined with collections of known elements: the library's own result
-            known = lambda c_: not any(isinstance(x, Each) for x in c_)
+            known = lambda c_: not any(isinstance(x, Each) or (isinstance(x, tuple) and len(x) == 2 and x[0] == "allof") for x in c_)
             others = [I._concrete_seq(p_) for p_ in pos]
             if name in ("intersection", "difference", "symmetric_difference", "issubset", "issuperset", "isdisjoint", "union", "copy") and not kw and known(obj) \
                     and all(o_ is not None and known(o_) for o_ in others):
